@@ -85,6 +85,19 @@ def partialTraceSparse (dims : List Nat) (keep : List Bool) (ρ : List (Nat × N
 def denseOf (es : List (Nat × Nat × α)) (x y : Nat) : α :=
   es.foldl (fun acc e => if e.1 = x ∧ e.2.1 = y then acc + e.2.2 else acc) 0
 
+/-- the operator that acts as `G` on the kept axes and as the identity on the traced ones
+(`numqi.maximum_entropy.get_ABk_gellmann_preimage_op(kind='symmetric')`, `_internal.py:149-160`, builds these by
+`reshape(…,1,…)·eye(…)` broadcasting) -/
+def embedKeep (dims : List Nat) (keep : List Bool) (G : Nat → Nat → α) (x y : Nat) : α :=
+  if part false dims keep x = part false dims keep y then G (part true dims keep x) (part true dims keep y) else 0
+
+/-- `sdp_2local_rdm_solve` (`maximum_entropy/_internal.py:109-116`): the reduced state of qubits `(ind0, ind0+1)` of a chain, as the
+code builds it: `partial_trace(X, [L, 4R], axis=0)` (skipped if `L = 1`), then `partial_trace(·, [4, R], axis=1)` (skipped if `R = 1`);
+`L = 2^ind0`, `R = 2^(n-2-ind0)`; `cvxpy.partial_trace(·, dims, axis)` is modelled as tracing out that axis. -/
+def rdmTwoStep (L R : Nat) (X : Nat → Nat → α) : Nat → Nat → α :=
+  let X1 := if L = 1 then X else partialTrace [L, 4 * R] [false, true] X
+  if R = 1 then X1 else partialTrace [4, R] [true, false] X1
+
 /-- `sorted(set(keep_index))` as a mask over `range n` -/
 def maskOf (n : Nat) (keepIdx : List Nat) : List Bool := (List.range n).map fun i => keepIdx.contains i
 
